@@ -62,7 +62,7 @@ MATCHERS = {}
 # ~1.0 %, spec-inconclusive ~0.9 %, domain-timeout < 0.01 %, oracle restarts ~0.4 %, skipped ~17 % (of which the
 # rules that never match beyond the relocation cap are the bulk).
 THRESHOLDS = {"stall": 0.002, "model_inconclusive": 0.04, "spec_inconclusive": 0.04, "domain_timeout": 0.002,
-              "oracle_restarts": 0.03, "skipped": 0.35, "dst_inconclusive": 0.25}
+              "oracle_restarts": 0.03, "skipped": 0.35, "dst_inconclusive": 0.05, "dst_skipped": 0.45}
 
 
 # ------------------------------------------------------------------ streams
@@ -135,7 +135,7 @@ def process_chunk(job):
     kind, tag, payload = job
     orc = RC.TimedOracle(ORACLE_EXE)
     summ = {"n": 0, "generated": 0, "skipped": 0, "model_inconclusive": 0, "spec_inconclusive": 0, "stall": 0,
-            "domain_timeout": 0, "in_wf": 0, "in_xwf": 0, "in_family": 0, "dst_n": 0, "dst_inconclusive": 0,
+            "domain_timeout": 0, "in_wf": 0, "in_xwf": 0, "in_family": 0, "dst_n": 0, "dst_inconclusive": 0, "dst_generated": 0, "dst_skipped": 0,
             "model_diff": 0, "spec_diff": 0, "violations": [], "hist": {}, "keys": [], "samples": [],
             "relocated": {}, "classes": {}}
     budget = {"seen": 0, "relocated": 0}
@@ -240,8 +240,14 @@ def process_chunk(job):
                 "model_agrees": r["model_agrees"], "spec_verdict": r["spec_verdict"] or "agree"})
 
     def handle_dst(case):
-        summ["generated"] += 1
+        """-> False when the draw was skipped (the caller draws a replacement)"""
+        summ["dst_generated"] += 1
         v = RC.evaluate_dst(case, orc)
+        if v == "skip":
+            summ["dst_skipped"] += 1
+            cls("dst-skip(no end before the cap within the fuel)", case)
+            return False
+        summ["generated"] += 1
         summ["dst_n"] += 1
         bump("class=dst-zone-start+utc-until")
         if v in ("inconclusive", "stall"):
@@ -253,6 +259,7 @@ def process_chunk(job):
             summ["violations"].append(({"kind": "dst-until", "what": "DST-zone start with UTC UNTIL: " + what,
                                         "input": case, "expected_wall": [RC.fmt_inst(x) for x in expected[:60]],
                                         "got_wall": [RC.fmt_inst(x) for x in got[:60]]}, True))
+        return True
 
     try:
         if kind == "random":
@@ -261,10 +268,13 @@ def process_chunk(job):
                 handle(case, rnd)
         elif kind == "dst":
             rnd = C.rng("C01/%s" % tag)
-            for _ in range(payload):
+            done = 0
+            for _ in range(3 * payload):            # skipped draws are replaced, at most 3 draws per wanted case
+                if done >= payload:
+                    break
                 case = RC.dst_case(rnd)
-                if case is not None:
-                    handle_dst(case)
+                if case is not None and handle_dst(case):
+                    done += 1
         else:
             for case in payload:
                 handle(case, None)
@@ -367,7 +377,7 @@ def main():
             jobs.append(("list", "exh-%s/%d" % (name, k), lst[k:k + 400]))
 
     total = {"n": 0, "generated": 0, "skipped": 0, "model_inconclusive": 0, "spec_inconclusive": 0, "stall": 0,
-             "domain_timeout": 0, "in_wf": 0, "in_xwf": 0, "in_family": 0, "dst_n": 0, "dst_inconclusive": 0,
+             "domain_timeout": 0, "in_wf": 0, "in_xwf": 0, "in_family": 0, "dst_n": 0, "dst_inconclusive": 0, "dst_generated": 0, "dst_skipped": 0,
              "model_diff": 0, "spec_diff": 0, "oracle_restarts": 0}
     hist, keys, samples, relocated, classes = {}, {}, [], {}, {}
     if have_oracle:
@@ -397,7 +407,8 @@ def main():
                  "spec_inconclusive": total["spec_inconclusive"] / max(total["in_wf"] + total["in_xwf"], 1),
                  "domain_timeout": total["domain_timeout"] / ev, "oracle_restarts": total["oracle_restarts"] / ev,
                  "skipped": total["skipped"] / gen,
-                 "dst_inconclusive": total["dst_inconclusive"] / max(total["dst_n"], 1)}
+                 "dst_inconclusive": total["dst_inconclusive"] / max(total["dst_n"], 1),
+                 "dst_skipped": total["dst_skipped"] / max(total["dst_generated"], 1)}
     exceeded = {k: round(v, 5) for k, v in fractions.items() if v > THRESHOLDS[k]}
     if have_oracle and exceeded:
         worst = sorted(classes.items(), key=lambda kv: -kv[1])[:15]
@@ -456,6 +467,9 @@ def main():
                       "model_inconclusive": total["model_inconclusive"],
                       "spec_inconclusive": total["spec_inconclusive"],
                       "domain_test_timeout": total["domain_timeout"],
+                      "dst_class_drawn": total["dst_generated"],
+                      "dst_class_skipped(sparse rule: the naive twin finds no end before the cap within the "
+                      "fuel; replaced by a fresh draw)": total["dst_skipped"],
                       "dst_class_evaluated": total["dst_n"], "dst_class_inconclusive": total["dst_inconclusive"],
                       "oracle_restarts": total["oracle_restarts"],
                       "fractions": {k: round(v, 5) for k, v in fractions.items()},
